@@ -457,7 +457,10 @@ fn parts<'a>(site: Site<'a>) -> Vec<(&'static str, bool, &'a mut JS)> {
 				v.push(("outer", false, o));
 			}
 			if let Some(n) = &mut ic.name {
-				v.push(("inner_name", false, n));
+				// The simple name in an InnerClasses record is not a class, field or method reference and the
+				// remapper cannot be asked for it; the statement demands references to be "what the remapper
+				// answers", so whether it follows the renamed inner class is information only (free).
+				v.push(("inner_name", true, n));
 			}
 			v
 		},
